@@ -41,3 +41,11 @@ Theorem C01_equiv_certificate : forall (Q1 Q2 : Type) (E1 : EqDec Q1) (E2 : EqDe
   (A : enfa Q1) (B : enfa Q2) (n : nat), enfa_equiv A B n = Some true -> lang_eq A B.
 Proof. exact (@enfa_equiv_sound). Qed.
 Print Assumptions C01_equiv_certificate.
+
+(* the subset construction finishes: with fuel n such that 3 * 2^|states| < 2^n the out-of-fuel branch is unreachable *)
+From Coq Require Import Arith.
+From PFL Require Import Proofs.Totality.
+Theorem C01_determinize_total : forall (b : bool) (A : enfa N), wf A ->
+  forall n, (3 * 2 ^ length (e_states A) < 2 ^ n)%nat -> exists D, determinize b A n = Some D.
+Proof. exact determinize_total. Qed.
+Print Assumptions C01_determinize_total.
